@@ -1,10 +1,95 @@
 import PewDriver.Util
+import PewModel.Extent
+import PewDriver.C09
 open Lean
 namespace PewDriver.C10
-open PewDriver
+open PewDriver Pew Pew.Extent Pew.Srr
+open PewDriver.C09 (parseSrrCfg)
 
-def handle (op : String) (_req : Json) : R Json := do
+def parseCfg (j : Json) : R Cfg := do
+  let k ← getStr j "kind"
+  match k with
+  | "raster" => pure (.raster (← getRat j "spotsize") (← getRat j "speed") (← getRat j "scantime"))
+  | "spot" => pure (.spot (← getRat j "sx") (← getRat j "sy"))
+  | _ => throw s!"bad config kind {k}"
+
+def jExt (e : Ext) : Json := jList jRat [e.x0, e.x1, e.y0, e.y1]
+
+/-- the token grid: pixel `(r, c)` of a `rows × cols` image carries `r * cols + c + 1` -/
+def grid (rows cols : Nat) : Arr2 Int :=
+  { rows := rows, cols := cols, get := fun r c => ((r * cols + c + 1 : Nat) : Int) }
+
+def jArr2 (a : Arr2 Int) (full : Bool) : Json :=
+  let first := if a.rows = 0 ∨ a.cols = 0 then Json.null else jInt (a.get 0 0)
+  let last := if a.rows = 0 ∨ a.cols = 0 then Json.null else jInt (a.get (a.rows - 1) (a.cols - 1))
+  let base := [("shape", jList jNat [a.rows, a.cols]), ("first", first), ("last", last)]
+  if full then
+    jObj (base ++ [("data", jList (fun r => jList (fun c => jInt (a.get r c)) (List.range a.cols)) (List.range a.rows))])
+  else jObj base
+
+def handle (op : String) (req : Json) : R Json := do
   match op with
+  | "c10.extent" =>
+    let c ← fld req "cfg" >>= parseCfg
+    let rows ← getNat req "rows"
+    let cols ← getNat req "cols"
+    let data := grid rows cols
+    let rt := match Cfg.fromArray c.kind c.toArray with
+      | some c' => jObj [("pw", jRat c'.pixelWidth), ("ph", jRat c'.pixelHeight), ("extent", jExt (laserExtent c' data))]
+      | none => Json.null
+    let sp := c.specExtent rows cols
+    pure (jObj [
+      ("model", jObj [("pw", jRat c.pixelWidth), ("ph", jRat c.pixelHeight),
+                      ("extent", jExt (laserExtent c data)), ("data_extent", jExt (c.dataExtent [rows, cols])),
+                      ("roundtrip", rt)]),
+      ("spec", jObj [("extent", jExt sp),
+                     ("pw", jRat (match c with | .raster _ v t => v * t | .spot sx _ => sx)),
+                     ("ph", jRat (match c with | .raster s _ _ => s | .spot _ sy => sy))])])
+  | "c10.get" =>
+    let c ← fld req "cfg" >>= parseCfg
+    let rows ← getNat req "rows"
+    let cols ← getNat req "cols"
+    let full ← getBool req "full"
+    let e ← getList asRat req "extent"
+    let rect ← getList asNat req "rect"
+    match e, rect with
+    | [x0, x1, y0, y1], [r0, r1, c0, c1] =>
+      let data := grid rows cols
+      let ext : Ext := { x0 := x0, x1 := x1, y0 := y0, y1 := y1 }
+      let qs := [x0 / c.pixelWidth, x1 / c.pixelWidth, y0 / c.pixelHeight, y1 / c.pixelHeight]
+      pure (jObj [
+        ("model", jArr2 (get c data ext) full),
+        ("indices", jList (fun q => jInt (toIndex q)) qs),
+        ("indices_old", jList (fun q => jInt (toIndexOld q)) qs),
+        ("margins", jList (fun q => jRat (tieMargin q)) qs),
+        ("quotients", jList jRat qs),
+        ("spec", jArr2 (rectSpec data r0 r1 c0 c1) full)])
+    | _, _ => throw "extent/rect need four entries"
+  | "c10.srr" =>
+    let c ← fld req "cfg" >>= parseSrrCfg
+    let m ← getRat req "mag"
+    let shapes ← getList (asList asNat) req "shapes"
+    let layers : List (Arr2 Int) ← shapes.mapM (fun s => match s with
+      | [r, k] => pure (grid r k)
+      | _ => throw "shape pair expected")
+    let obs ← getList asRat req "observed"   -- x0, x1, y0, y1, px, py as observed on the implementation
+    let p := subpixelsPerPixel c.size m
+    let mexact := magInt m
+    let modelRatio := match srrLaserExtent c m layers with
+      | some e => jList jRat [(e.x1 - e.x0) / srrPixelWidth c m none, (e.y1 - e.y0) / srrPixelHeight c m none]
+      | none => Json.null
+    let modelShape := match krisskross 0 c m layers with
+      | some a => jList jNat [a.rows, a.cols]
+      | none => Json.null
+    let specShape := match layers[0]?, layers[1]? with
+      | some d0, some d1 => jList jNat [reconRows d0.rows mexact p c.offs, reconCols d1.rows mexact p c.offs]
+      | _, _ => Json.null
+    let obsRatio := match obs with
+      | [x0, x1, y0, y1, px, py] => if px = 0 ∨ py = 0 then Json.null else jList jRat [(x1 - x0) / px, (y1 - y0) / py]
+      | _ => Json.null
+    pure (jObj [("model_ratio", modelRatio), ("model_shape", modelShape), ("spec_shape", specShape),
+                ("observed_ratio", obsRatio), ("spp", jNat p), ("warmup", jInt c.warmup),
+                ("size", jNat c.size), ("offs", jList jNat c.offs)])
   | _ => throw s!"unknown op {op}"
 
 end PewDriver.C10
